@@ -760,3 +760,31 @@ func hasGhost(e *Expr) bool {
 	}
 	return false
 }
+
+// hasGhostDeep: like hasGhost, looking through macros.
+func (g *Gen) hasGhostDeep(e *Expr, pkgPath string, depth int) bool {
+	if e == nil || depth > 25 {
+		return false
+	}
+	if e.Op == "ghost" {
+		return true
+	}
+	if e.Op == "call" {
+		m, ok := g.macros[pkgPath+"::"+e.Name]
+		if !ok {
+			m, ok = g.macros[e.Name]
+		}
+		if ok && g.hasGhostDeep(m.Body, pkgPath, depth+1) {
+			return true
+		}
+	}
+	if g.hasGhostDeep(e.X, pkgPath, depth) || g.hasGhostDeep(e.Y, pkgPath, depth) {
+		return true
+	}
+	for _, a := range e.Args {
+		if g.hasGhostDeep(a, pkgPath, depth) {
+			return true
+		}
+	}
+	return false
+}
